@@ -176,11 +176,13 @@ def repo_build(variant="hook"):
     try:
         stamp = os.path.join(path, ".verif-ok")
         if not os.path.exists(stamp):
-            # prune: keep the 5 most recently used builds of this variant (disk is limited)
+            # prune: keep the 8 most recently used builds of this variant (disk is limited), and never one that
+            # was used in the last three hours (another check may be running against it)
             olds = [os.path.join(BUILD, d) for d in os.listdir(BUILD) if d.startswith("repo-%s-" % variant)]
             olds.sort(key=lambda x: os.path.getmtime(x), reverse=True)
-            for d in olds[5:]:
-                shutil.rmtree(d, ignore_errors=True)
+            for d in olds[8:]:
+                if time.time() - os.path.getmtime(d) > 3 * 3600:
+                    shutil.rmtree(d, ignore_errors=True)
             btype, cflags, cc = VARIANTS[variant]
             t0 = time.time()
             run(["cmake", "-G", "Ninja", "-S", REPO, "-B", path,
